@@ -329,6 +329,7 @@ namespace plan
     }
 
     void check_all(int units_read);
+    std::vector<std::pair<const ratio::atom *, const ratio::atom *>> unified_pairs; // (unified atom, its target), filled by the justification check
     bool nested_zero_length = false; // set by the timeline checks: the solution has a zero-length atom strictly inside another one on a state variable
     void check_toplevel(int units_read);
     void check_rules();
